@@ -33,8 +33,24 @@ def run_engine(ctx, want: str) -> None:
     cap = 12000 if thorough else 1500
     programs = passrun.load_programs(res.out_path, cap, ctx.seed)
     ctx.extra["corpus_generated"] = res.distinct
-    ctx.extra["corpus_used"] = len(programs)
     os.unlink(res.out_path)
+    if thorough:
+        # three-node programs over a reduced catalogue: TLC enumerates all of them, a checksum-selected
+        # (seed-dependent, scheduling-independent) sample is emitted and run
+        src3 = open(os.path.join(RW, "RewriteMC_n3.cfg")).read()
+        src3 = re.sub(r"SampleRes = \d+", f"SampleRes = {ctx.seed % 400}", src3)
+        cfg3 = os.path.join(ctx.scratch, "RewriteMC_n3_v.cfg")
+        open(cfg3, "w").write(src3)
+        res3 = ctx.tlc(os.path.join(RW, "RewriteMC.tla"), cfg3, tag="gen3", timeout=3000, deadlock=False)
+        if not res3.ok:
+            raise MachineryError(f"3-node program generator failed: {res3.violated} {res3.errors[:2]}")
+        extra3 = passrun.load_programs(res3.out_path, None, ctx.seed)
+        base = max(i for i, _ in programs) + 1
+        programs += [(base + i, P) for i, P in extra3]
+        ctx.extra["corpus_generated_3nodes"] = res3.distinct
+        ctx.extra["corpus_used_3nodes"] = len(extra3)
+        os.unlink(res3.out_path)
+    ctx.extra["corpus_used"] = len(programs)
 
     pairs, apps, obs, witness_src = [], [], [], {}
     raised, invalid_after, bad_corpus = {}, {}, 0
